@@ -659,6 +659,18 @@ pub fn finalize_compaction_inputs(
     )
 }
 
+/// Like [`finalize_compaction_inputs`], then asks the manifest whether the compaction is a trivial move.
+pub fn trivial_move_decision(options: DbOptions, compaction_level: usize, levels: &[(usize, Vec<VFile>)], chosen: &[usize]) -> (bool, usize, usize) {
+    let (v, _tc) = version_with(&options, levels);
+    let initial: Vec<Arc<FileMetadata>> = chosen.iter().map(|i| Arc::clone(&v.files[compaction_level][*i])).collect();
+    let node = Arc::new(parking_lot::RwLock::new(Node::new(v)));
+    let mut cm = CompactionManifest::new(&options, compaction_level);
+    cm.set_input_version(Arc::clone(&node));
+    cm.set_compaction_level_files(initial);
+    let _ = cm.finalize_compaction_inputs();
+    (cm.is_trivial_move(), cm.get_compaction_level_files().len(), cm.get_parent_level_files().len())
+}
+
 /// A version set whose current version holds `levels`, installed through a real `log_and_apply`
 /// (which creates the manifest). Returns the guarded fields.
 fn vset_with(options: &DbOptions, levels: &[(usize, Vec<VFile>)]) -> (parking_lot::Mutex<GuardedDbFields>, Arc<TableCache>) {
